@@ -203,6 +203,20 @@ func scExec(st ast.Stmt, s int) bool {
 			}
 		}
 		return true
+	case *ast.While:
+		// the harness's while loops run their body exactly once (body ends with break); there
+		// is no header scope, only the body block's
+		blk := n.Body.(*ast.BlockStmt)
+		bs := scNew(s)
+		for _, b := range blk.Block {
+			if _, isBreak := b.(*ast.BreakStmt); isBreak {
+				return true
+			}
+			if !scExec(b, bs) {
+				return false
+			}
+		}
+		return true
 	case *ast.FunctionStmt:
 		if scFnN >= 4 {
 			verifAssume(false)
@@ -431,6 +445,131 @@ func VH_scopeLate(container int) {
 	in := NewInterpreter()
 	in.Interpret(prog, false)
 	scCompare()
+}
+
+// VH_scopeBlockFn (C03): a function declared inside a block (or a loop body) that declares
+// nothing else is local to that block like any other declaration: it shadows an outer binding
+// of its name only inside the block, does not overwrite it, and is gone afterwards. Outer
+// statement, then the container holding { function f { S } ; S' }, then a call and a read of
+// symbolic names (which may or may not be f's).
+func VH_scopeBlockFn(container int) {
+	scN, scOutN, scFnN, scNextV, scLine, scDepth = 0, 0, 0, 0, 0, 0
+	scErr = false
+	call := func(nm token.Token) ast.Stmt {
+		return &ast.ExpressionStatement{Expression: &ast.Call{Callee: &ast.Identifier{Name: nm, Line: nm.Line}, Paren: token.Token{Type: token.RIGHT_PAREN, Lexeme: ")", Line: nm.Line}}}
+	}
+	var outer ast.Stmt
+	if verifChoice(2) == 1 {
+		// the outer binding is itself a function
+		nm := scName()
+		outer = &ast.FunctionStmt{Name: nm, Body: []ast.Stmt{genScopeStmt(0, true)}}
+	} else {
+		outer = genScopeStmt(0, false)
+	}
+	fname := scName()
+	fdecl := &ast.FunctionStmt{Name: fname, Body: []ast.Stmt{genScopeStmt(0, true)}}
+	var second ast.Stmt
+	if verifChoice(2) == 1 {
+		second = call(scName())
+	} else {
+		nm := scName()
+		second = &ast.PrintStatement{Expression: &ast.Identifier{Name: nm, Line: nm.Line}}
+	}
+	inner := []ast.Stmt{fdecl, second}
+	prog := []ast.Stmt{outer}
+	switch container {
+	case 0:
+		prog = append(prog, &ast.BlockStmt{Block: inner})
+	case 2:
+		prog = append(prog, &ast.While{Condition: &ast.Literal{Value: true}, Body: &ast.BlockStmt{Block: append(inner, &ast.BreakStmt{Line: scLine})}})
+	default:
+		nm := scName()
+		init := &ast.VarStmt{Name: nm, Initializer: scLit(), Line: nm.Line}
+		prog = append(prog, &ast.ForStmt{Initializer: init, Condition: &ast.Literal{Value: true}, Body: &ast.BlockStmt{Block: append(inner, &ast.BreakStmt{Line: scLine})}})
+	}
+	prog = append(prog, call(scName()))
+	nm := scName()
+	prog = append(prog, &ast.PrintStatement{Expression: &ast.Identifier{Name: nm, Line: nm.Line}})
+	top := scNew(scNew(-1))
+	for _, s := range prog {
+		if !scExec(s, top) {
+			break
+		}
+	}
+	utils.HadError = false
+	utils.HadRuntimeError = false
+	verifClearEvents()
+	in := NewInterpreter()
+	in.Interpret(prog, false)
+	scCompare()
+}
+
+// VH_deadCode (C18f): a declaration added where it can never run — after the থামো that ends a
+// loop body, after the ফেরত that ends a function body — changes nothing: the program with it
+// and the program without it print the same and fail the same.
+func VH_deadCode(where int) {
+	scN, scOutN, scFnN, scNextV, scLine, scDepth = 0, 0, 0, 0, 0, 0
+	call := func(nm token.Token) ast.Stmt {
+		return &ast.ExpressionStatement{Expression: &ast.Call{Callee: &ast.Identifier{Name: nm, Line: nm.Line}, Paren: token.Token{Type: token.RIGHT_PAREN, Lexeme: ")", Line: nm.Line}}}
+	}
+	outer := genScopeStmt(0, false)
+	if verifChoice(2) == 1 {
+		nm := scName()
+		outer = &ast.FunctionStmt{Name: nm, Body: []ast.Stmt{genScopeStmt(0, true)}}
+	}
+	fname := scName()
+	fdecl := &ast.FunctionStmt{Name: fname, Body: []ast.Stmt{genScopeStmt(0, true)}}
+	second := genScopeStmt(0, false)
+	deadName := scName()
+	dead := &ast.VarStmt{Name: deadName, Initializer: scLit(), Line: deadName.Line}
+	loopVar := scName()
+	afterCall := call(scName())
+	afterRead := scName()
+	build := func(withDead bool) []ast.Stmt {
+		var container ast.Stmt
+		if where == 2 {
+			body := []ast.Stmt{fdecl, second, &ast.BreakStmt{Line: scLine}}
+			if withDead {
+				body = append(body, dead)
+			}
+			container = &ast.While{Condition: &ast.Literal{Value: true}, Body: &ast.BlockStmt{Block: body}}
+		} else if where == 0 {
+			body := []ast.Stmt{fdecl, second, &ast.BreakStmt{Line: scLine}}
+			if withDead {
+				body = append(body, dead)
+			}
+			init := &ast.VarStmt{Name: loopVar, Initializer: &ast.Literal{Value: 1.0, Line: loopVar.Line}, Line: loopVar.Line}
+			container = &ast.ForStmt{Initializer: init, Condition: &ast.Literal{Value: true}, Body: &ast.BlockStmt{Block: body}}
+		} else {
+			// a block inside a function body that ends in ফেরত; the function is called once
+			blk := []ast.Stmt{fdecl, second, &ast.Return{Keyword: token.Token{Type: token.RETURN, Lexeme: "return", Line: scLine}, Value: &ast.Literal{Value: nil, Line: scLine}}}
+			if withDead {
+				blk = append(blk, dead)
+			}
+			container = &ast.BlockStmt{Block: []ast.Stmt{&ast.FunctionStmt{Name: loopVar, Body: []ast.Stmt{&ast.BlockStmt{Block: blk}}}, call(loopVar)}}
+		}
+		return []ast.Stmt{outer, container, afterCall, &ast.PrintStatement{Expression: &ast.Identifier{Name: afterRead, Line: afterRead.Line}}}
+	}
+	var outs [2]string
+	var errs [2]bool
+	for run := 0; run < 2; run++ {
+		utils.HadError, utils.HadRuntimeError = false, false
+		verifClearEvents()
+		NewInterpreter().Interpret(build(run == 1), false)
+		for i := 0; i < verifNumEvents(); i++ {
+			switch verifEventKind(i) {
+			case 1:
+				outs[run] += verifEventText(i)
+			case 2:
+				if !errs[run] {
+					outs[run] += "<diagnostic at line " + fmt.Sprint(verifEventB(i)) + ">"
+				}
+				errs[run] = true
+			}
+		}
+	}
+	verifAssert("dead-code-same-output", outs[0] == outs[1])
+	verifAssert("dead-code-same-failure", errs[0] == errs[1])
 }
 
 func scCompare() {
